@@ -66,9 +66,14 @@ def main():
         rc, o = sh("go build ./... ")
         res["builds"] = rc == 0
         rc, o = sh("go test -vet=off -count=1 ./... 2>&1")
-        fails = [l for l in o.splitlines() if l.startswith("--- FAIL") or l.startswith("FAIL")]
-        real = [l for l in fails if "TestServeBackground" not in l and "http/builtin" not in l and l.strip() != "FAIL"]
-        res["suite_passes_with_patch"] = not real
+        failed_pkgs = re.findall(r"^FAIL\t(\S+)", o, re.M)
+        fails = [l for l in o.splitlines() if l.startswith("--- FAIL")]
+        if failed_pkgs == ["github.com/Syuparn/pangaea/props/modules/http/builtin"]:
+            # the http tests bind fixed port 50000 (other scratch runs may hold it): re-run alone in a private network namespace
+            rc2, o2x = sh("unshare -rn sh -c 'ip link set lo up; go test -vet=off -count=1 ./props/modules/http/builtin 2>&1'")
+            fails = [l for l in o2x.splitlines() if l.startswith("--- FAIL") and "TestServeBackground" not in l]
+            failed_pkgs = [] if not fails else failed_pkgs
+        res["suite_passes_with_patch"] = not failed_pkgs
         res["suite_fail_lines"] = fails[:6]
         ok_patched, o2 = run_demo(sid, d)
         res["demo_fails_with_patch"] = (ok_patched is False)
